@@ -1,0 +1,14 @@
+//go:build !verif
+
+// Package verifhook provides interleaving points for external runtime
+// monitors. Without the `verif` build tag every function is a no-op.
+package verifhook
+
+type Func func(point string, scope any)
+
+// Enabled reports whether hooks are compiled in.
+const Enabled = false
+
+func Set(Func) {}
+
+func At(string, any) {}
